@@ -35,6 +35,9 @@ def _match_entries(out: str, texts: list) -> str | None:
     used = [False] * len(pool)
     pos = 0
     while pos < len(lines):
+        if lines[pos] == "":             # blank lines between two notes are harmless (the page stays valid)
+            pos += 1
+            continue
         for i, tl in enumerate(pool):
             if not used[i] and lines[pos:pos + len(tl)] == tl:
                 used[i] = True
@@ -81,7 +84,7 @@ def _one(rec: dict) -> dict:
         with patch("vimala._vim.proctor.safe_popen", lambda *a, **k: MagicMock()):
             r1 = env.main("edit", "q.zoq")
         z1 = env.read("q.zoq")
-        m = re.fullmatch(re.escape(f"# {QUERY}\n# keep me\n#\n{STATS}") + r"[-0-9]{10} AT [0-9:]{8}\.\n\n(.*)", z1, re.S)
+        m = re.fullmatch(re.escape(f"# {QUERY}\n# keep me\n#\n{STATS}") + r"[^\n]*\n\n(.*)", z1, re.S)
         if not r1.ok:
             res["problems"].append(("zoq", f"zorg edit q.zoq failed: {r1!r}", z1))
         elif not m:
@@ -164,7 +167,10 @@ def _zoq_chunk(cases: list) -> list:
                 return env.read("q.zoq")
 
             def want(lines):
-                return "\n".join(l["txt"] for l in lines).replace("<STATS>", stats).replace("<RESULTS>", results)
+                return "\n".join(l["txt"] for l in lines).replace("<RESULTS>", results)
+
+            def got(z):          # what the fresh stats line says after its fixed prefix is not part of any property
+                return re.sub(r"(?m)^" + re.escape(STATS) + r"(?!2001-02-03 AT 04:05:06\.$)[^\n]*$", "<STATS>", z.rstrip("\n"))
             try:
                 z1 = refresh()
                 z2 = refresh()
@@ -172,9 +178,9 @@ def _zoq_chunk(cases: list) -> list:
                 out.append({"case": c, "text": text, "problem": f"refresh raised {e!r}"})
                 continue
             prob = None
-            if z1.rstrip("\n") != want(c["once"]) or len(z1) - len(z1.rstrip("\n")) > 1:
+            if got(z1) != want(c["once"]) or len(z1) - len(z1.rstrip("\n")) > 1:
                 prob = ("once", z1, want(c["once"]))
-            elif z2.rstrip("\n") != want(c["twice"]) or len(z2) - len(z2.rstrip("\n")) > 1:
+            elif got(z2) != want(c["twice"]) or len(z2) - len(z2.rstrip("\n")) > 1:
                 prob = ("twice", z2, want(c["twice"]))
             out.append({"case": c, "text": text, "problem": prob})
     finally:
